@@ -18,3 +18,5 @@ from . import ioutils  # noqa: E402,F401
 from . import terms  # noqa: E402,F401
 from . import rows  # noqa: E402,F401
 from . import encode  # noqa: E402,F401
+from . import flows  # noqa: E402,F401
+from . import streams  # noqa: E402,F401
